@@ -264,8 +264,17 @@ var hostileNumbers = []string{
 	"115792089237316195423570985008687907853269984665640564039457584007913129639935",
 	"115792089237316195423570985008687907853269984665640564039457584007913129639936",
 	"-1", "-0", "+5", "00000000000000000001", "1.5", "0.000000000000000000000001", ".", "1e10", "1E400", "1e-400", "0x10", "0b1", "1_000", "1/3",
-	"1e1000", "1e99999", "1e1000000", "0x1p10000000", "1e-1000000", // the last five belong to the class of finding N3
 }
+
+// exponentAmplifiers: a few bytes that denote an astronomically large or small number in every spelling Go's number
+// parsers (big.Int, big.Rat, big.Float SetString; strconv) accept - plain, signed and zero-padded exponents, digit
+// separators inside mantissa and exponent, binary exponents on hex, octal and binary mantissas (the class of finding N3)
+var exponentAmplifiers = []string{
+	"1e1000", "1e99999", "1e1000000", "0x1p10000000", "1e-1000000",
+	"1e99_999", "1E+999_999", "1e+99999", "1e0000099999", "1_0e99999", "1e-99_999", "0x1p99_999", "0X1P+9999999", "0b1p99999", "0o7p99999", "1p99999", "1.5e9_9_9_9_9",
+}
+
+func init() { hostileNumbers = append(hostileNumbers, exponentAmplifiers...) }
 
 var digitLens = []int{19, 20, 21, 38, 39, 40, 77, 78, 79, 100, 1000, 10000, 50000}
 
@@ -347,6 +356,12 @@ func (m *mut) textOne(s []byte) (out []byte, shaped bool) {
 		return append(out, strings.Repeat(close, d)...), true
 	case k < 88: // unit suffix / trailing junk
 		suf := []string{" SC", "SC", " H", "H", "TS", "pS", "mS", " KS", "XS", " sc", "S", "e5", ")", "]", "\x00", " ", "\n"}[m.intn(17, "suf")]
+		if m.intn(3, "amplified") == 0 {
+			// an amount with a unit goes through another parser than a bare number: the amplifiers with every unit
+			amp := exponentAmplifiers[m.intn(len(exponentAmplifiers), "amp")]
+			m.note("amount=%q", amp+suf)
+			return []byte(amp + suf), true
+		}
 		m.note("suffix=%q", suf)
 		return append(s, suf...), true
 	case k < 92: // whole-input replacements
@@ -558,7 +573,7 @@ func (m *mut) jsonOne(s []byte) (out []byte, shaped bool) {
 			m.note("jdigits*%d", n)
 			return splice(s, t.span, rep('9', n)), true
 		}
-		v := hostileNumbers[m.intn(len(hostileNumbers)-5, "num")] // exponent amplifiers are only interesting inside strings
+		v := hostileNumbers[m.intn(len(hostileNumbers)-len(exponentAmplifiers), "num")] // exponent amplifiers are only interesting inside strings
 		m.note("jnum@%d=%s", t.lo, v)
 		return splice(s, t.span, []byte(v)), true // some of these are not JSON numbers: syntax errors are part of the domain
 	case k < 72: // keys: hostile map keys, renamed or duplicated fields
